@@ -229,6 +229,12 @@ def canon_output(qc, out, meta):
             bases.append([[round(float(c), 9) for c in b.coeffs], [[[o.name for o in side] for side in m] for m in b.maps]])
             if data[j].operation.name not in _EXPLICIT:
                 from .oracles import channel
+                longest = max((len(side) for m in b.maps for side in m), default=0)
+                if longest > 12:
+                    # a KAK decomposition has at most five operations per side (local unitary, up to three, local unitary);
+                    # much longer lists mean the local unitaries were applied again and again — not worth multiplying out
+                    return {"mismatch": f"the basis attached to cut gate {j} ({data[j].operation.name}) is not a decomposition of that gate: "
+                                        f"{longest} operations on one side of a map"}
                 err = float(np.abs(channel.basis_ptm(b) - channel.ptm2_gate(data[j].operation)).max())
                 if err > 1e-7:
                     return {"mismatch": f"the basis attached to cut gate {j} ({data[j].operation.name}) is not a decomposition of that gate: "
